@@ -92,10 +92,17 @@ def _transform_mp_worker(queue, done_event, pio_in, pio_out, make_buf, do_one):
     buf = make_buf()
 
     while True:
+        # Sample the shutdown flag *before* trying to receive. The producer only
+        # sets it after every item has been flushed to the queue, so "flag was
+        # set, then the receive timed out" means that nothing is left for us.
+        # Checking the flag only after the timeout could race with the producer
+        # flushing its last item and lose that item.
+        done = done_event.is_set()
+
         try:
             pos = queue.get(True, timeout=1)
         except Empty:
-            if done_event.is_set():
+            if done:
                 break
             continue
 
